@@ -65,9 +65,10 @@ def seeded_table() -> str:
                     f"{', '.join(dets) if dets else '**not detected**'} | "
                     f"{hist or 'detected'} |")
     undet = sum(1 for v in desc.values() if v[2].startswith("NOT DETECTED"))
-    head = (f"{n} seeded changes (three rounds: two per property in rounds 1 "
+    head = (f"{n} seeded changes (four rounds: two per property in rounds 1 "
             f"and 2, two each for the 15 properties with a round-2 miss in "
-            f"round 3); {det} are detected by the check of their own "
+            f"round 3 and for the 13 properties with a round-3 miss in round "
+            f"4); {det} are detected by the check of their own "
             f"property at the quick tier with the final machinery; "
             f"{missed_first - undet} were missed (or only caught by another "
             f"property's check, or hung the check) when first evaluated and "
